@@ -14,6 +14,7 @@ import (
 
 	v1 "github.com/crossplane/crossplane/apis/apiextensions/v1"
 	"github.com/crossplane/crossplane/internal/xcrd"
+	"github.com/crossplane/crossplane/verif/explore"
 )
 
 type failure struct{ sig, msg string }
@@ -24,7 +25,23 @@ func (f *fails) add(sig, format string, a ...any) {
 	f.list = append(f.list, failure{sig, fmt.Sprintf(format, a...)})
 }
 
-func (f *fails) first() (string, string) {
+// Violations are de-duplicated by signature downstream, and the explorer
+// replays every reported violation twice. To keep a badly broken tree from
+// spending the whole budget on replays of one signature, a case reports the
+// first of its failures whose signature this process has not reported yet; a
+// case whose failures were all reported already is counted as a suppressed
+// duplicate (it is not an evaluation).
+var (
+	reportedSigs      = map[string]bool{}
+	lastCase, lastSig string
+)
+
+// raise reports the failures of the current case, if any. It returns true if
+// the case failed (whether or not it was reported).
+func (f *fails) raise(r *explore.Run, scenario string) bool {
+	if len(f.list) == 0 {
+		return false
+	}
 	var all []string
 	for _, x := range f.list {
 		all = append(all, x.sig+": "+x.msg)
@@ -32,7 +49,20 @@ func (f *fails) first() (string, string) {
 	if len(all) > 6 {
 		all = append(all[:6], fmt.Sprintf("... and %d more", len(all)-6))
 	}
-	return f.list[0].sig, strings.Join(all, " | ")
+	msg := strings.Join(all, " | ")
+	id := scenario + fmt.Sprint(r.Choices)
+	if id == lastCase { // the explorer is confirming the violation just reported
+		r.Failf(lastSig, "%s", msg)
+	}
+	for _, x := range f.list {
+		if !reportedSigs[x.sig] {
+			reportedSigs[x.sig] = true
+			lastCase, lastSig = id, x.sig
+			r.Failf(x.sig, "%s", msg)
+		}
+	}
+	count("suppressed-duplicate-violation")
+	return true
 }
 
 // render calls the function under test, turning a panic into an error value
@@ -100,7 +130,6 @@ func baseline(k crdKind, x xrdSpec) J {
 	baselines[key] = b
 	return b
 }
-
 
 func absent(v any) bool { return v == nil }
 
@@ -235,7 +264,9 @@ func checkSchema(f *fails, k crdKind, x xrdSpec, vs verSchema, vname string, got
 		a := obj(author, "properties", part) // nil if the author has none
 		g := obj(props, part)
 		gp := obj(g, "properties")
-		for n, want := range obj(a, "properties") {
+		ap := obj(a, "properties")
+		for _, n := range sortedAny(ap) {
+			want := ap[n]
 			if mach[n] {
 				continue // the author cannot define machinery
 			}
@@ -258,13 +289,15 @@ func checkSchema(f *fails, k crdKind, x xrdSpec, vs verSchema, vname string, got
 
 	// machinery: present with the promised type ...
 	sp := obj(props, "spec", "properties")
-	for n, typ := range wantSpecMachinery[k] {
+	for _, n := range sortedStr(wantSpecMachinery[k]) {
+		typ := wantSpecMachinery[k][n]
 		if obj(sp, n) == nil || obj(sp, n)["type"] != typ {
 			f.add("machinery/"+K+"/spec."+n+"/type", "version %s: machinery field spec.%s is %s, want type %s", vname, n, canon(sp[n]), typ)
 		}
 	}
 	st := obj(props, "status", "properties")
-	for n, typ := range wantStatusMachinery {
+	for _, n := range sortedStr(wantStatusMachinery) {
+		typ := wantStatusMachinery[n]
 		if obj(st, n) == nil || obj(st, n)["type"] != typ {
 			f.add("machinery/"+K+"/status."+n+"/type", "version %s: machinery field status.%s is %s, want type %s", vname, n, canon(st[n]), typ)
 		}
@@ -308,6 +341,14 @@ func sortedAny(ms ...J) []string {
 		for k := range m {
 			u[k] = true
 		}
+	}
+	return sortedKeys(u)
+}
+
+func sortedStr(m map[string]string) []string {
+	u := map[string]bool{}
+	for k := range m {
+		u[k] = true
 	}
 	return sortedKeys(u)
 }
